@@ -12,6 +12,7 @@ import (
 	"sort"
 	"strings"
 	"sync"
+	"sync/atomic"
 
 	"github.com/oasisprotocol/curve25519-voi/curve"
 	"github.com/oasisprotocol/curve25519-voi/curve/scalar"
@@ -19,6 +20,8 @@ import (
 	"github.com/oasisprotocol/curve25519-voi/primitives/ed25519"
 	"github.com/oasisprotocol/curve25519-voi/primitives/ed25519/extra/cache"
 )
+
+var lruUninspectable int32
 
 func main() { mc.Main("C09", run) }
 
@@ -1118,10 +1121,18 @@ func cachedClosure(c *mc.Ctx) {
 		caps = append(caps, 4)
 	}
 	var mu sync.Mutex
+	defer func() {
+		if atomic.LoadInt32(&lruUninspectable) == 1 {
+			c.Cap("the LRU cache's representation could not be read by the accessor: the cached-verification state graph was explored to history depth 3 instead of to closure, structural invariants were not observed")
+		}
+	}()
 	c.Par("cached-closure", len(caps), func(w *mc.W, ci int) {
 		cp := caps[ci]
 		lruKey := func(l cache.Cache) (string, []string) {
 			ord, _, _, pr := cache.VerifLRUState(l)
+			if len(pr) == 1 && pr[0] == cache.VerifUninspectable {
+				return "", nil // representation not readable: handled by the caller (history-keyed, depth-bounded)
+			}
 			s := ""
 			for _, k := range ord {
 				s += fmt.Sprintf("%x,", k[:6])
@@ -1189,6 +1200,16 @@ func cachedClosure(c *mc.Ctx) {
 					w.Eval(fmt.Sprintf("cached/cap=%d/addkey", cp), len(h) > 0)
 				}
 				k, pr := lruKey(l)
+				if k == "" && pr == nil {
+					if _, _, _, p0 := cache.VerifLRUState(l); len(p0) == 1 && p0[0] == cache.VerifUninspectable {
+						// behavioural mode: states are identified with histories, explored to depth 3
+						atomic.StoreInt32(&lruUninspectable, 1)
+						k = fmt.Sprint("history", h, oi)
+						if len(h) >= 2 {
+							seen[k] = true
+						}
+					}
+				}
 				if len(pr) > 0 {
 					w.Fail("lruCache/invariant", fmt.Sprintf("cap=%d history [%s]: %s", cp, hist, strings.Join(pr, "; ")), cas)
 				}
